@@ -252,8 +252,24 @@ def _lock():
 def source_scan():
     """grep for forbidden declarations in the committed Coq sources."""
     bad = []
-    for f in sorted(THEORIES.rglob('*.v')):
+    # the files that are built (and that theorems can depend on) are exactly those listed in _CoqProject; every CG module
+    # they Require must be listed too, so that no unlisted (unscanned) file can be depended upon through a stale .vo
+    listed = [ln.strip() for ln in (VERIF / 'coq' / '_CoqProject').read_text().splitlines()
+              if ln.strip().endswith('.v')]
+    files = [VERIF / 'coq' / ln for ln in listed]
+    mods = {ln[len('theories/'):-2].replace('/', '.') for ln in listed}
+    for f in files:
+        if not f.exists():
+            bad.append(f'{f.relative_to(VERIF)}: listed in _CoqProject but missing')
+            continue
         txt = f.read_text()
+        for m in re.finditer(r'From\s+CG\s+Require\s+(?:Import|Export)?\s*([^.]*(?:\.[A-Za-z_][^.\s]*)*)\s*\.(?:\s|$)', txt):
+            for name in m.group(1).split():
+                if name not in mods:
+                    bad.append(f'{f.relative_to(VERIF)}: requires CG.{name} which is not listed in _CoqProject')
+        for m in re.finditer(r'Require\s+(?:Import|Export)?\s*CG\.([A-Za-z_.]+?)\.(?:\s|$)', txt):
+            if m.group(1) not in mods:
+                bad.append(f'{f.relative_to(VERIF)}: requires CG.{m.group(1)} which is not listed in _CoqProject')
         txt_nc = re.sub(r'\(\*.*?\*\)', '', txt, flags=re.S)
         for m in FORBIDDEN.finditer(txt_nc):
             bad.append(f'{f.relative_to(VERIF)}: {m.group(0)}')
